@@ -15,6 +15,10 @@
 (*   ntok   number of lexer tokens the range tiles exactly, -1 if it cuts  *)
 (*          through a token (0 for an empty range)                         *)
 (*   os, oe for a focus range: the full range that must contain it         *)
+(*   lsp, sl, sc, el, ec, nl, l16s, l16e  the range after the server's own *)
+(*          conversion to LSP positions (line, UTF-16 column), the number  *)
+(*          of lines of the client's copy and the UTF-16 lengths of the    *)
+(*          start and end lines                                            *)
 (***************************************************************************)
 EXTENDS Integers, Sequences, TLC, Json, IOUtils
 
@@ -40,10 +44,16 @@ WholeTokens(r) == /\ (r.kind \in NameLike => r.ntok = 1)
                   \* a completion replaces the identifier being typed or nothing
                   /\ (r.kind = "completion_source" => r.ntok \in {0, 1})
 
-RangeOK(r) == InBounds(r) /\ OnBoundary(r) /\ FocusInside(r) /\ WholeTokens(r)
+\* the same range as the client receives it (lsp = TRUE when the server's conversion was applied): both positions name an
+\* existing line of the client's copy and a column within it (UTF-16 units), start not after end
+LspInside(r) == r.lsp => /\ r.sl < r.nl /\ r.el < r.nl
+                         /\ r.sc <= r.l16s /\ r.ec <= r.l16e
+                         /\ (r.sl < r.el \/ (r.sl = r.el /\ r.sc <= r.ec))
+
+RangeOK(r) == InBounds(r) /\ OnBoundary(r) /\ FocusInside(r) /\ WholeTokens(r) /\ LspInside(r)
 
 Explain == (tr > 1 /\ ~RangeOK(Rec[tr - 1])) =>
               PrintT(<<"FAILED", ToJson([line |-> tr - 1,
-                                         bad |-> <<InBounds(Rec[tr - 1]), OnBoundary(Rec[tr - 1]), FocusInside(Rec[tr - 1]), WholeTokens(Rec[tr - 1])>>])>>)
+                                         bad |-> <<InBounds(Rec[tr - 1]), OnBoundary(Rec[tr - 1]), FocusInside(Rec[tr - 1]), WholeTokens(Rec[tr - 1]), LspInside(Rec[tr - 1])>>])>>)
 Done == IF TLCGet("stats").diameter = Len(Rec) + 1 THEN TRUE ELSE Print(<<"INCOMPLETE", TLCGet("stats").diameter>>, FALSE)
 =============================================================================
